@@ -127,3 +127,40 @@ pub(crate) fn map_half_spider<K: ArrayKind, O>(
 ) -> FiniteFunction<K> {
     w.sources.injections(f).unwrap()
 }
+
+/// Internal functions exposed for the external verification harness (feature `verif-hooks` only).
+#[cfg(feature = "verif-hooks")]
+pub mod verif_hooks_traits {
+    use super::*;
+
+    pub fn spider_map_arrow<K: ArrayKind, O1, A1, O2, A2>(
+        f: &OpenHypergraph<K, O1, A1>,
+        fw: IndexedCoproduct<K, SemifiniteFunction<K, O2>>,
+        fx: OpenHypergraph<K, O2, A2>,
+    ) -> OpenHypergraph<K, O2, A2>
+    where
+        K::Type<K::I>: NaturalArray<K>,
+        K::Type<O1>: Array<K, O1> + PartialEq,
+        K::Type<A1>: Array<K, A1>,
+        K::Type<O2>: Array<K, O2> + PartialEq,
+        K::Type<A2>: Array<K, A2>,
+    {
+        super::spider_map_arrow::<K, O1, A1, O2, A2>(f, fw, fx)
+    }
+
+    pub fn to_operations<K: ArrayKind, O, A>(f: &OpenHypergraph<K, O, A>) -> Operations<K, O, A>
+    where
+        K::Type<K::I>: NaturalArray<K>,
+        K::Type<O>: Array<K, O>,
+        K::Type<A>: Array<K, A>,
+    {
+        super::to_operations(f)
+    }
+
+    pub fn map_half_spider<K: ArrayKind, O>(
+        w: &IndexedCoproduct<K, SemifiniteFunction<K, O>>,
+        f: &FiniteFunction<K>,
+    ) -> FiniteFunction<K> {
+        super::map_half_spider(w, f)
+    }
+}
